@@ -259,3 +259,36 @@ def outparam_on_status_rule(chk, cid, prog, cfgname, callees=None, floor=8):
     if n < floor:
         raise AnalysisBroken('%s: only %d (call site, status return) pairs found (floor %d)' % (cid, n, floor))
     return n
+
+
+def inclusive_do_loop_rule(chk, cid, prog, cfgname, units=('SRC/mc64ad.c',), floor=90):
+    """mc64ad.c (and mmd.c) are f2c translations: every counted loop is a Fortran DO loop `DO v = a, b`, inclusive at both ends, rendered as
+    `for (v = a; v <= b; ++v)`.  An upper test `<` drops the last index - the last matched row that a shortest-path search must be able to
+    scan, the last column of a reset sweep - and only matrices that need that last index notice.  Every `for` whose increment is `++v` and
+    whose test compares v with a bound must use `<=`."""
+    chk.clause(cid, 'counted loops of the f2c-translated sources are inclusive (v <= bound), as the DO loops they came from')
+    n = 0
+    for f in prog.all_funcs():
+        if f.unit not in units:
+            continue
+        for lp in f.body.walk():
+            if lp.k != 'For' or lp.c[1] is None or lp.c[2] is None:
+                continue
+            inc, cond = strip(lp.c[2]), strip(lp.c[1])
+            if not (inc.k == 'Unary' and inc.a['op'] == '++' and strip(inc.c[0]).k == 'Ref'):
+                continue
+            if not (cond.k == 'Binary' and cond.a['op'] in ('<', '<=') and strip(cond.c[0]).k == 'Ref' and strip(cond.c[0]).a.get('id') == strip(inc.c[0]).a.get('id')):
+                continue
+            n += 1
+            chk.saw(unit=f.unit, func=f.unit + ':' + f.name)
+            inst = '%s:%s:do-loop@%d' % (f.unit, f.name, n)
+            if cond.a['op'] == '<=':
+                chk.ok(cid, inst, nontrivial=False)
+            else:
+                chk.violate(cid, '%s:exclusive-do-loop:%s' % (f.name, pretty(cond)[:30].replace(' ', '')), loc(f, lp), f.name,
+                            'the counted loop `for (%s; %s; %s)` stops one short: the Fortran DO loop it translates includes its upper bound (all other %s '
+                            'loops of this file test with <=)' % (pretty(lp.c[0])[:20] if lp.c[0] is not None else '', pretty(cond)[:30], pretty(inc)[:10], 'counted'),
+                            cfgname=cfgname)
+    if n < floor:
+        raise AnalysisBroken('%s: %d counted loops found in %s, floor %d' % (cid, n, units, floor))
+    return n
